@@ -3,7 +3,7 @@ CONSTANTS
   H = 2
   W = 2
   InitLabels = {0, 1, 3}
-  NewLabels = {2}
+  NewLabels = {2, 4}
   MaxDepth = 3
   Acts = {"read", "reassign", "remove", "keep", "relabel", "border", "setdata"}
   Emit = TRUE
